@@ -359,6 +359,10 @@ def run(ctx, report):
     from .. import simpeval
     simpeval.emit(R8, ctx, lambda l: l in ('compose', 'slice:Compose'), ('value', 'width', 'ill-typed', 'result', 'raises'))
 
+    R13 = report.rule('C07.D13', 'a store that overlaps a stored cell leaves exactly the bytes of that cell it does not cover, each at its address with its bits of the old value '
+                      '(substract_mems evaluated from the source on cell width x store width x byte offset, all overlapping placements)', floor=60)
+    remainder_rule(ctx, R13)
+
     R12 = report.rule('C07.D12', 'cell addresses have one simplified form: base + 0, 0 + base and base + c + (-c) simplify to the base itself for sums of one, two and three terms '
                       '(memory cells are keyed by the simplified address; the overlap probes compute neighbours as address + constant)', floor=10)
     simpeval.emit_groups(R12, ctx, 'neutral', 'two spellings of one address')
@@ -609,7 +613,86 @@ def lookback_rule(ctx, R, ea, methods):
         raise AnalysisError('get_mem_overlapping: unmodelled look-back bound %s' % u(low))
 
 
+def remainder_rule(ctx, R):
+    from .. import simpeval as SE
+    from ..consteval import Evaluator, Obj, NotConst, PyRaise
+    run = SE.results(ctx)['run']
+    ea = ctx.mod('eval_abs')
+    fn = ea.methods('eval_abs').get('substract_mems')
+    if fn is None:
+        raise AnalysisError('eval_abs.substract_mems not found')
+    x = SE.ExprId('x', 32)
+    base = 0x40
+    envs = [{'x': 0x1000, 'v': 0x8877665544332211}, {'x': 0xFFFFFFE0, 'v': 0xF1E2D3C4B5A69788}]
+    n = 0
+    for sa in (16, 32, 64):
+        v = SE.ExprId('v', sa)
+        a = SE.ExprMem(SE.Op('+', x, SE.C(base)), sa)
+        for sb in (8, 16, 32, 64):
+            for d in range(-8, 9):
+                if not (d < sa // 8 and d + sb // 8 > 0):
+                    continue                      # no overlap: the function is not called
+                b = SE.ExprMem(SE.Op('+', x, SE.C((base + d) & 0xFFFFFFFF)), sb)
+                me = Obj('self')
+                me.pool = {a: v}
+                inst = 'remainder[%d-bit cell, %d-bit store at %+d]' % (sa, sb, d)
+                key = 'remainder:%s' % ('store-before' if d < 0 else 'store-at-start' if d == 0 else 'store-inside')
+                try:
+                    out = Evaluator(run.scope).call_user(fn, [me, a, b])
+                except PyRaise as e:
+                    R.violation(inst, key + ':raises', 'substract_mems raises %s for a %d-bit cell at x+%#x and a %d-bit store at x+%#x' % (e.exc_name, sa, base, sb, base + d), where(ea, fn))
+                    continue
+                except NotConst as e:
+                    raise AnalysisError('eval_abs.substract_mems is outside the evaluable subset: %s' % e)
+                n += 1
+                problems = []
+                if not isinstance(out, list):
+                    problems.append('returns %r' % (out,))
+                    out = []
+                for env in envs:
+                    want = {}
+                    A = (env['x'] + base) & 0xFFFFFFFF
+                    for i in range(sa // 8):
+                        if not d <= i < d + sb // 8:
+                            want[(A + i) & 0xFFFFFFFF] = (env['v'] >> (8 * i)) & 0xFF
+                    got = {}
+                    for item in out:
+                        try:
+                            cell, val = item
+                            addr = SE.value(cell.f('arg'), env)
+                            size = cell.f('size')
+                            if SE.size_of(val) != size:
+                                problems.append('the remainder %s holds a value of %d bits' % (SE.show(cell), SE.size_of(val)))
+                            vv = SE.value(val, env)
+                        except (SE.IllTyped, ValueError, TypeError, AttributeError) as e:
+                            problems.append('a remainder is malformed (%s)' % e)
+                            continue
+                        for i in range(size // 8):
+                            k_ = (addr + i) & 0xFFFFFFFF
+                            if k_ in got:
+                                problems.append('two remainders cover the byte at x+%#x' % ((k_ - env['x']) & 0xFFFFFFFF))
+                            got[k_] = (vv >> (8 * i)) & 0xFF
+                    if got != want and not problems:
+                        miss = sorted(set(want) - set(got))
+                        extra = sorted(set(got) - set(want))
+                        if miss:
+                            problems.append('the byte at x+%#x of the old cell is lost' % ((miss[0] - env['x']) & 0xFFFFFFFF))
+                        elif extra:
+                            problems.append('a remainder covers the byte at x+%#x, which the store overwrites or the cell never held' % ((extra[0] - env['x']) & 0xFFFFFFFF))
+                        else:
+                            k_ = [k2 for k2 in want if want[k2] != got[k2]][0]
+                            problems.append('the byte at x+%#x is kept with the wrong bits of the old value' % ((k_ - env['x']) & 0xFFFFFFFF))
+                    if problems:
+                        break
+                if problems:
+                    R.violation(inst, key, 'a %d-bit store at x+%#x over the %d-bit cell at x+%#x: %s' % (sb, base + d, sa, base, problems[0]), where(ea, fn),
+                                witness='mov [ebx], eax ; mov byte ptr [ebx+1], cl ; read @16[ebx+2]')
+                else:
+                    R.ok(inst, nontrivial=(n % 3 == 0), sample='%s: the uncovered bytes stay, each with its bits' % inst)
+
+
 MUTANTS = [
+    ('substract-mems-tail-from-cell', 'miasmx/expression/expression_eval_abstract.py', "                ex = ExprOp('+', b.arg, ExprInt(uint32(b.size/8)))", "                ex = ExprOp('+', a.arg, ExprInt(uint32(b.size/8)))", 'C07.D13'),
     ('getreg-reeval', 'miasmx/expression/expression_eval_abstract.py', "        return self.pool[r]\n", "        return self.eval_expr(self.pool[r], {})\n", 'C07.D7'),
     ('overlap-addr-reeval', 'miasmx/expression/expression_eval_abstract.py', "            ex = expr_simp(e.arg - x)", "            ex = expr_simp(self.eval_expr(e.arg - x, eval_cache))", 'C07.D7'),
     ('rep-zf-symbolic-skip', 'miasmx/tools/emul_helper.py', "                if not isinstance(my_zf, ExprInt):\n                    # the termination test cannot be decided\n                    raise ValueError('Emulation fails for \"%s\". ZF value is %s'\n                        % (l, str(my_zf)))\n", "", 'C07.D5'),
